@@ -16,10 +16,6 @@ HARNESSES = json.load(open(os.path.join(KDIR, 'harnesses.json'))) if os.path.exi
 def run_one(h, tier):
     t0 = time.time()
     env = dict(os.environ, CARGO_NET_OFFLINE='true', CARGO_TARGET_DIR=os.path.join(VERIF, 'build', 'kani-target'))
-    lock = os.path.join(KDIR, 'Cargo.lock')
-    if not os.path.exists(lock):
-        import shutil
-        shutil.copy('/repo/Cargo.lock', lock)
     cmd = ['cargo', 'kani', '--harness', h['harness']] + h.get('args', [])
     bound = h.get('bound_thorough' if tier == 'thorough' else 'bound_quick')
     if bound is not None:
